@@ -19,6 +19,9 @@ ACKS = [0, 1, -1]
 PAYLOADS = [[], [b''], [b'a'], [b'a', b'bc'], [bytes(range(256))], [b'z' * 70000], [b'p1', b'', b'p3' * 50]]
 
 
+SMALL_IO = [None, None]      # (bytes per recv call, bytes per send call); None = unlimited
+
+
 class KPeer(object):
   ordered = False
 
@@ -39,6 +42,7 @@ class Chain(object):
     from scales.constants import SinkProperties
     from scales.kafka.sink import KafkaSerializerSink, KafkaTransportSink, KafkaEndpoint
     self.net = simnet.new_net()
+    self.net.max_recv, self.net.max_send = SMALL_IO
     self.net.add_endpoint('h0', 9092, lambda net, c: KPeer(net, c))
     a = KafkaSerializerSink.Builder()
     b = KafkaTransportSink.Builder()
@@ -390,6 +394,27 @@ def check_call_forms():
   return {'n': n, 'keys': n, 'viol': viol, 'sample': {'call_forms': 4}}
 
 
+def check_small_io():
+  """Requests and replies once more with a kernel that moves 3 bytes per recv and 7 per send() call."""
+  out = {'n': 0, 'keys': 0, 'viol': [], 'sample': {'small_io': [3, 7]}}
+  SMALL_IO[:] = [3, 7]
+  try:
+    for fn, args in ((check_requests, ([b't'], [0, 1], ACKS, PAYLOADS[:5])), (check_correlation, ())):
+      try:
+        r = fn(*args)
+      except Exception as e:  # noqa
+        r = {'n': 1, 'keys': 1, 'viol': [{'clause': 'C15.malformed', 'sig': {'small_io': True},
+                                         'message': '%s could not be carried out: %s: %s' % (fn.__name__, type(e).__name__, str(e)[:200])}]}
+      out['n'] += r['n']
+      out['keys'] += r['keys']
+      for v in r['viol']:
+        v['message'] = 'with at most 3 bytes per recv and 7 per send: ' + v['message']
+        out['viol'].append(v)
+  finally:
+    SMALL_IO[:] = [None, None]
+  return out
+
+
 def check_while_opening():
   """2-3 produce requests handed to the serializer while the transport is still connecting; once it is open, what is written
   must be one well-formed request per call, each with its own topic, partition and payloads."""
@@ -494,6 +519,7 @@ def main(tier, seed):
     out += explore.pmap('vt.checks.c15', 'check_correlation', [()], pool, seed)
     out += explore.pmap('vt.checks.c15', 'check_while_opening', [()], pool, seed)
     out += explore.pmap('vt.checks.c15', 'check_call_forms', [()], pool, seed)
+    out += explore.pmap('vt.checks.c15', 'check_small_io', [()], pool, seed)
     out += explore.pmap('vt.checks.c15', 'check_client_ids', [()], pool, seed)
     if tier == 'quick':
       codes = list(range(-40, 140)) + [-32768, -32767, -129, 255, 256, 32766, 32767]
